@@ -68,6 +68,13 @@ class Body_temperature(Temperature):
         self.patient = patient
 
 
+class Marker(DBC):
+    """Represent a class without properties."""
+
+    def __init__(self) -> None:
+        pass
+
+
 class Ward(DBC):
     """Represent a container."""
 
@@ -150,6 +157,35 @@ def bounded(seed: int = 0, **_: Any) -> Dict[str, Any]:
                         failures.append({"property": "C10", "class": cls_name,
                                          "observed": f"after the {how} round trip the properties are {fields(again)}, "
                                                      f"expected {want}"})
+            # a class without properties: round trips and malformed documents
+            for how, back, bads in (
+                    ("JSON", lambda i: J.marker_from_jsonable(J.to_jsonable(i)), [[], "x", None]),
+                    ("XML", lambda i: X.marker_from_str(X.to_str(i)),
+                     ['<marker xmlns="https://dummy.com"><x/></marker>', '<marker xmlns="https://dummy.com">text</marker>',
+                      '<other xmlns="https://dummy.com"/>'])):
+                cases += 1
+                try:
+                    again_m = back(T.Marker())
+                    if type(again_m) is not T.Marker:
+                        failures.append({"property": "C10", "class": "Marker", "observed": f"{how} round trip gives "
+                                         f"{type(again_m).__name__}"})
+                except BaseException as e:  # noqa
+                    failures.append({"property": "C10", "class": "Marker", "observed": f"{how} round trip raised "
+                                     f"{type(e).__name__}: {str(e)[:120]}"})
+                for bad in bads:
+                    cases += 1
+                    try:
+                        if how == "JSON":
+                            J.marker_from_jsonable(bad)
+                        else:
+                            X.marker_from_str(bad)
+                        failures.append({"property": "C10", "class": "Marker", "document": repr(bad),
+                                         "observed": f"the malformed {how} document is de-serialized without an error"})
+                    except (J.DeserializationException, X.DeserializationException):
+                        pass
+                    except BaseException as e:  # noqa
+                        failures.append({"property": "C10", "class": "Marker", "document": repr(bad),
+                                         "observed": f"raised {type(e).__name__} instead of DeserializationException"})
             cases += 1
             ward = T.Ward(measurements=[i for _, _, i in built])
             try:
